@@ -690,6 +690,35 @@ func codecEngine(args []string, in *bufio.Scanner, out *bufio.Writer) {
 				var ex []string
 				if err == nil {
 					ex = groupExtras(ref, back)
+					// what is decoded must be what was written, whatever the receiver held before: decode the same document
+					// into a Group that already carries ANOTHER scheme (the DKG database path pre-sets the scheme of the
+					// group it decodes into) and into one whose document names an unknown scheme
+					recv := "true"
+					var buf bytes.Buffer
+					if e := toml.NewEncoder(&buf).Encode(copyGroup(g).TOML()); e == nil {
+						for _, name := range crypto.ListSchemes() {
+							if name == g.Scheme.Name {
+								continue
+							}
+							gt := &key.GroupTOML{}
+							if _, e := toml.Decode(buf.String(), gt); e != nil {
+								break
+							}
+							pre := &key.Group{Scheme: mustScheme(name)}
+							if e := pre.FromTOML(gt); e == nil && pre.Scheme.Name != g.Scheme.Name {
+								recv = "scheme-of-receiver-kept:" + name
+							}
+							gt2 := &key.GroupTOML{}
+							_, _ = toml.Decode(buf.String(), gt2)
+							gt2.SchemeID = "no-such-scheme"
+							pre2 := &key.Group{Scheme: mustScheme(name)}
+							if e := pre2.FromTOML(gt2); e == nil {
+								recv = "unknown-scheme-accepted-into-preset-receiver"
+							}
+							break
+						}
+					}
+					ex = append(ex, "recvindep="+recv)
 				}
 				emit(cs, "group-toml", before, back, err, ex...)
 			})
